@@ -124,7 +124,7 @@ def run(ctx):
             "reused_fd_io_thread_held_in_slow_onData", "reused_fd_blackhole_result_Timeout", "calls_reused-fd-blackhole"]
     req += ["calls_teardown-racing", "teardown_racing_destroyed_with_callers_parked", "teardown_racing_stopped",
             "teardown_racing_returned_ShuttingDown", "teardown_racing_returned_ok",
-            "teardown_racing_connects_completed_after_caller_gave_up"]
+            "teardown_racing_connects_completed_after_caller_gave_up", "teardown_racing_connectSync_entered_while_stop_drains"]
     ctx.require_obs(*req)
 
 
